@@ -292,7 +292,8 @@ def verify_correspondence(ctx, header, body):
 # ------------------------------------------------------------------ weighted_average_percentages
 
 VALID_POOL = [-100.0, 1e5, 0.0, -16.0, 3.0, 4.0, 150.0, 100.0, -99.5, 12.25, 99999.0, -0.5, 37.7, -63.1, 1234.5678]
-INVALID_POOL = [1e5 + 1, 1e6, 1e11, 1e20, 9.37e36, -100.5, -101.0, -1e9, 100000.00000001, -100.00000000001]
+INVALID_POOL = [1e5 + 1, 1e6, 1e11, 1e20, 9.37e36, -100.5, -101.0, -1e9, 100000.00000001, -100.00000000001,
+                float("inf"), float("-inf"), 1e300, -1e300]   # +-inf are impossible values too (inf > 1e5, -inf < -100)
 
 
 def gen_weights(rng, n, kind):
@@ -415,7 +416,10 @@ def wavg_checks(ctx):
             ctx.violation("C17:wavg-nonfinite@import_utilities.weighted_average_percentages", f"result {r['v']}",
                           {"kind": "counterexample", "ps": c["ps"], "ws": c["ws"]})
             continue
-        terms.append(f"check_wavg (1#1000000000) {fql(c['ps'])} {fql(c['ws'])} {obs}")
+        # the exact model has no infinities: an infinite (impossible) entry is handed to it as a finite impossible one -
+        # by c17_wavg_ignores the model's result does not depend on WHICH impossible value stands there
+        mps = [(9.37e36 if p > 0 else -1e9) if math.isinf(p) else p for p in c["ps"]]
+        terms.append(f"check_wavg (1#1000000000) {fql(mps)} {fql(c['ws'])} {obs}")
         meta.append((c, r))
     codes = ctx.coq_codes("c17w", IMPORTS.replace(" Gen.CountryTable", ""), terms, per_file=250 if ctx.quick else 1500)
     nbad, nspec = 0, 0
